@@ -379,7 +379,7 @@ def confirm_boot_crash(engine, prop, agg, env=None):
     return []
 
 
-def confirm_crashes(engine, prop, batch_seed, agg, env=None):
+def confirm_crashes(engine, prop, batch_seed, agg, env=None, tier="quick"):
     """Re-run each crash candidate alone; a confirmed one becomes a violation."""
     eng = engine_module(engine)
     out = []
@@ -387,7 +387,7 @@ def confirm_crashes(engine, prop, batch_seed, agg, env=None):
         q = queue.Queue()
         cfg = {"mode": "batch", "engine": engine, "prop": prop, "batch_seed": batch_seed,
                "w": 0, "nw": 1, "deadline": time.time() + 3600, "only": i, "hashseed": seed % 8,
-               "watchdog_s": getattr(eng, "WATCHDOG_S", 60), "env": env}
+               "tier": tier, "watchdog_s": getattr(eng, "WATCHDOG_S", 60), "env": env}
         wk = Worker(cfg, q, 0)
         ph, ended, plan = "", None, None
         t_end = time.time() + cfg["watchdog_s"] + 120
@@ -408,7 +408,7 @@ def confirm_crashes(engine, prop, batch_seed, agg, env=None):
         if ended is None:
             # reproduce the plan in-process (pure function of the seed) for the replay file
             try:
-                plan = eng.gen_plan(seed, {"prop": prop, "tier": "quick"})
+                plan = eng.gen_plan(seed, {"prop": prop, "tier": tier})
             except Exception:
                 plan = {"engine": engine, "run_seed": seed, "hashseed": seed % 8}
             out.append({"i": i, "seed": seed, "plan": plan,
